@@ -26,7 +26,8 @@ Listings == { <<Ins(AddrT[1], b[1], b[2])>> : b \in Bodies }
        \cup { <<Ins(AddrT[1], "call", <<"*%rax">>), Ins(AddrT[2], b[1], b[2]), Ins(AddrT[3], "jmp", <<"401000">>)>> : b \in Bodies }
 
 Q_Ranges == { <<"0x401000", "0x401010">>, <<"401000", "401010">>, <<"0x401000", "0x401000">>, <<"0x000401000", "0x40100A">>,
-              <<"0x0", "0xffffffffffffffff">>, <<"0x1000", "0x180FFFFFF">> }
+              <<"0x0", "0xffffffffffffffff">>, <<"0x1000", "0x180FFFFFF">>,
+              <<"0x400000", "0x10000000">>, <<"401000", "0x401010">> }
 Q_Targets == {"400fff", "401000", "401008", "401010", "401011", "40100a", "40100b", "1000", "fff", "180ffffff", "181000000",
               "0x401000", "4010100", "40100"}
 T_Ranges == Q_Ranges \cup { <<"0x401010", "0x401000">>, <<"7fffffffffff", "0x800000000000">>, <<"f", "10">> }
